@@ -10,8 +10,8 @@
                                     token lies between them in the source
        Inv_PagesPartition           the pages are the non-empty \page / \sbkpage segments, in order
        Prop_Terminates
-   Sensitivity: "Rtf!NestedDestinationEndsSkip" violates HiddenNeverShown, "Rtf!RawNewlineIsText" violates
-   SeparatorsFaithful.                                                                              *)
+   Sensitivity: "Rtf!NestedDestinationEndsSkip" violates HiddenNeverShown, "Rtf!RawNewlineIsText" and
+   "Rtf!UControlWordLeaks" violate SeparatorsFaithful / the output alphabet.                                                                              *)
 EXTENDS RtfStripDefs
 
 CONSTANT Rich        \* TRUE: larger token alphabet
@@ -20,7 +20,7 @@ VARIABLES toks, k, st, res
 vars == <<toks, k, st, res>>
 
 T(x) == <<x, 0>>
-Base == {T("W"), T("SP"), T("LF"), T("PAR"), T("PAGE"), T("CWN"), T("HEX"), T("ESCB")}
+Base == {T("W"), T("SP"), T("LF"), T("PAR"), T("PAGE"), T("CWN"), T("HEX"), T("ESCB"), T("HEXBAD"), T("UL"), T("UC")}
         \cup (IF Rich THEN {T("CR"), T("LINE"), T("TAB"), T("SBK"), T("CW"), T("CWNEG"), T("UNI")} ELSE {})
 Seqs(S, n) == UNION {[1..m -> S] : m \in 0..n}
 OpenKinds == {"OPEN", "OPENCW", "OPENSTAR", "OPENNAMED"}
@@ -29,8 +29,8 @@ GroupItems == { <<T("W")>>, <<T("SP")>>, <<T("PAR")>> } \cup Inner
 RECURSIVE Flat(_)
 Flat(ss) == IF ss = <<>> THEN <<>> ELSE Head(ss) \o Flat(Tail(ss))
 Groups == { <<T(o)>> \o Flat(c) \o <<T("CLOSE")>> : o \in OpenKinds, c \in Seqs(GroupItems, 2) }
-Streams == { p \o g \o s : p \in {<<>>, <<T("W")>>}, g \in Groups, s \in Seqs(Base, 2) }
-           \cup Seqs(Base, IF Rich THEN 3 ELSE 4)
+Streams == { p \o g \o s : p \in {<<>>, <<T("W")>>}, g \in Groups, s \in Seqs(Base, IF Rich THEN 2 ELSE 1) }
+           \cup Seqs(Base, 3)
 \* number the words by position
 Number(s) == [j \in DOMAIN s |-> IF s[j][1] = "W" THEN <<"W", j>> ELSE s[j]]
 
@@ -72,5 +72,7 @@ Inv_PagesPartition ==
                        pb == CHOOSE p \in DOMAIN res.pages : <<"w", VisPos[b]>> \in {res.pages[p][m] : m \in DOMAIN res.pages[p]}
                    IN (WordsOf(Joined(res.pages)) = VisibleWords(toks)) =>
                         ((SegOfPos(VisPos[a]) = SegOfPos(VisPos[b])) <=> (pa = pb))
+\* the output holds nothing but words, the characters of HEX / UNI / ESCB tokens and white space
+Inv_NothingInvented == res.done => \A m \in DOMAIN res.result : res.result[m][1] \in {"w", "s", "n"} \/ res.result[m] \in {<<"c", 1>>, <<"c", 2>>}
 Prop_Terminates == <>(res.done)
 =============================================================================
